@@ -20,7 +20,7 @@ _WEIGHTS = [
     ('ready0', 4), ('ready1', 9),
     ('exit', 8), ('tomb', 6), ('tomb_term', 4), ('monitor', 9),
     ('monitor_restart', 4), ('fault', 5), ('finish_replace', 5),
-    ('clean', 9),
+    ('clean', 9), ('late_created', 4),
     ('restart', 7), ('node_start', 2),
 ]
 
@@ -250,9 +250,33 @@ class Gen:
                 elif r < 0.8:
                     ops.append(('deliver', rng.randrange(1, 3)))
                 return ops
+            if kind == 'late_created':
+                # an instance is placed right after the cache became ready: the synchronisation triggered by .ready
+                # configures it before its own created event is read; the container ends, is handed to cleanup
+                # (which may complete, or be interrupted half-way) and only then the created event arrives
+                if cached or node.running_target(inst) is not None or inst in node.pending_exit:
+                    continue
+                self._composite = True
+                how = rng.choice(('exitinfo', 'exitinfo', 'aborted', 'oom', 'sigabrt'))
+                ops = [('drain',), ('ready', 0), ('drain',), ('ready', 1),
+                       ('put', inst, self._new_gen(), False, _shape(rng)), ('deliver', 1),
+                       ('exit', inst, how), ('tomb', inst), ('monitor',)]
+                r = rng.random()
+                if r < 0.5:
+                    ops.append(('clean', 0, rng.choice((0.05, 0.3, 0.6, 0.9))))
+                elif r < 0.75:
+                    ops.append(('clean_all',))
+                ops.append(('deliver', 1))
+                return ops
             if kind == 'clean':
                 if not node.cleanup_links():
                     continue
+                if rng.random() < 0.25:
+                    # the removal is interrupted half-way; events that were pending reach the manager before the retry
+                    ops = [('clean', rng.randrange(0, 8), rng.choice((0.05, 0.3, 0.6, 0.9)))]
+                    if rng.random() < 0.6:
+                        ops.append(('deliver', rng.randrange(1, 3)))
+                    return ops
                 return [('clean', rng.randrange(0, 8))]
             if kind == 'restart':
                 ops = [('restart',)]
@@ -462,7 +486,11 @@ class Run:
                 return self._after('monitor', 'MonitorContainerCleanup',
                                    tombs=tombs)
             if kind == 'clean':
-                if node.cleanup_one(op[1]):
+                res = node.cleanup_one(op[1], op[2] if len(op) > 2 else None)
+                if res == 'interrupted':
+                    self.count('cleanups_interrupted_half_way')
+                    return self._after('env', 'Cleanup.invoke(interrupted)')
+                if res:
                     self.count('cleanups_completed')
                     return self._after('env', 'Cleanup.invoke')
                 return True
